@@ -111,8 +111,20 @@ def writer(rng, P, s, ctx, stream, total, sizes, bufs=(1, 1, 2, 3)):
     return c
 
 
-def reader(rng, P, s, ctx, n, caps, bufs=(1, 1, 2, 4), nb_p=0.2, nb_caps=None):
+AT_TIMES = [0, 1000000, 5000000, 20000000, 50000000, 100000000, 200000000, 300000000, 600000000, 1000000000, 2000000000, 5000000000]
+
+
+def reader(rng, P, s, ctx, n, caps, bufs=(1, 1, 2, 4), nb_p=0.2, nb_caps=None, at_p=0.15):
     c = ctx
+    if n > 0 and rng.random() < at_p:
+        # non-blocking reads from timer handlers at arbitrary instants: with no wait outstanding, with the
+        # chain's read / wait_read still pending, while segments are arriving, before the connection is
+        # established or after it ended (not only inside the handler of a wait_read that just fired)
+        for _ in range(rng.choice([1, 2, 3, 4])):
+            tc = P.at(rng.choice(AT_TIMES))
+            if rng.random() < 0.2: P.do(tc, "%s.available" % s)
+            for _ in range(rng.choice([1, 1, 2])):
+                P.do(tc, "%s.read_nb cap=%d bufs=%d" % (s, rng.choice(nb_caps or caps), rng.choice(bufs)))
     for _ in range(n):
         h = P.h()
         if rng.random() < nb_p:
